@@ -6,7 +6,7 @@ from hypothesis import strategies as st
 HIT = ["a", "b", "c", "d"]
 
 NASTY = [
-    "", "0", "1", "-1", "+1", " 1", "1 ", "01", "-0", "1_0", "\uff11", "1.0", "1e0", "2", "10",
+    "", "0", "1", "-1", "+1", " 1", "1 ", "01", "-0", "1_0", "\uff11", "1\u0663", "1\uff11", "-1\uff10", "1.0", "1e0", "2", "10",
     "~", "/", "~0", "~1", "a/b", "~01", "m~n",
     "'", '"', "\\", "a\\", "\\\\", "a'b", 'a"b', "\\'", "\\n", "\\u0041",
     "\n", "\t", "\u0001", "\u007f", " ", "\b", "\r", "\x1f",
@@ -16,7 +16,7 @@ NASTY = [
     "length", "count", "contains", "undefined", "missing", "a-b", "a b", "A",
 ]
 
-INT_LIKE = ["0", "1", "2", "-1", "+1", " 1", "01", "-0", "1_0", "\uff11", "10"]
+INT_LIKE = ["0", "1", "2", "-1", "+1", " 1", "01", "-0", "1_0", "\uff11", "10", "1\u0663", "1\uff11", "13", "11"]
 
 _text = st.text(alphabet=st.characters(codec="utf-8", exclude_categories=["Cs"]), max_size=6)
 
